@@ -158,7 +158,9 @@ Qed.
 
 Theorem write_total : forall done t, wf t -> draws (fun fuel => write fuel done) t.
 Proof.
-  intros done. induction t as [id wd hd|o al pad kids IH] using tree_ind'; intros Hwf x y w h.
+  intros done. induction t as [id wd hd|o al pad kids IH|id wd len|ow oh t IH] using tree_ind'; intros Hwf x y w h;
+    [| |exists O, [mkrect id x y w h]; reflexivity
+     |cbn [wf] in Hwf; destruct (IH (proj2 (proj2 Hwf)) x y w h) as (f0 & rs & H); exists f0, rs; intros fuel Hf; cbn [write]; apply H, Hf].
   - exists O, [mkrect id x y w h]. reflexivity.
   - apply wf_node in Hwf. destruct Hwf as [Hp Hk].
     assert (Hkids : Forall (draws (fun fuel => write fuel done)) kids).
